@@ -52,7 +52,8 @@ Qed.
 
 (* every read-only operation named above exists in this tree with at least one operand (the statement is
    not about names that match nothing) *)
-Lemma readonly_ops_present : forallb (fun f => existsb (fun r => String.eqb (fst r) f) operand_roots) readonly_ops = true.
+Lemma readonly_ops_present : (forallb (fun f => existsb (fun r => String.eqb (fst r) f) operand_roots) readonly_ops
+  && forallb (fun r => fmem r operand_roots) readonly_roots)%bool = true.
 Proof. vm_compute. reflexivity. Qed.
 
 (* the mutators do write (the table is not silent about stores), and only through their receiver *)
